@@ -456,4 +456,18 @@ section .text
 		db 0x%3, 0x%2
 %endmacro
 
+%ifdef ISAL_CRYPTO_VERIF
+;; Verification hook (guard ISAL_CRYPTO_VERIF, off by default): the CPU feature queries of the
+;; run-time dispatchers go through harness-provided functions with the same register contract
+;; as the instructions they replace (eax/ecx in, eax/ebx/ecx/edx out, everything else preserved).
+extern isal_verif_cpuid
+extern isal_verif_xgetbv
+%macro cpuid 0
+	call	isal_verif_cpuid
+%endmacro
+%macro xgetbv 0
+	call	isal_verif_xgetbv
+%endmacro
+%endif
+
 %endif ; ifndef _REG_SIZES_ASM_
